@@ -124,6 +124,17 @@ def vectors(L, mode, real):
         k = np.arange(n)
         v = (np.sin(1.0 + (1.7 + w) * k) + 0.3) / (1.0 + 0.2 * k) + 1j * np.cos(0.3 + (2.3 - 0.4 * w) * k) / (1.0 + 0.1 * k)
         yield ("dense", (w,)), fin(v)
+    # overall magnitude: the same dense function measured in other units (coefficients of order 1e-13, 1e-10, 1e8) - invariance is a
+    # statement relative to the size of the function, whatever that size is
+    for w, mag in enumerate((1e-13, 1e-10, 1e-6, 1e8)):
+        k = np.arange(n)
+        v = (np.sin(1.0 + 1.7 * k) + 0.3) / (1.0 + 0.2 * k) + 1j * np.cos(0.3 + 2.3 * k) / (1.0 + 0.1 * k)
+        yield ("scaled-dense", (w,)), fin(v * mag)
+        # ... and one whose largest coefficient is NOT the rotation-invariant l = 0 term (flat spectrum, no constant part): the largest
+        # single coefficient then changes under rotation, the function's size does not
+        f = np.sin(1.0 + 1.7 * k) + 0.3 + 1j * np.cos(0.3 + 2.3 * k)
+        f[0] = 0.0
+        yield ("scaled-flat", (w,)), fin(f * mag)
     # a wide dynamic range inside ONE vector: two whole degrees carry only 1e-13 of the others
     if n > 36:
         k = np.arange(n)
